@@ -73,6 +73,8 @@ def q_history(s, m, oid, size):
     if hasattr(s, '_file'):          # FileStorage merges the extension dict into each entry
         if got[0] == 'ok':
             got = ('ok', [_strip_hist(d) for d in got[1]])
+        if want[0] == 'ok':          # (the computed 'time' wins over an extension key of that name and is not compared)
+            want = ('ok', [_strip_hist(d) for d in want[1]])
     else:                            # other storages: compare the common keys
         if got[0] == 'ok':
             got = ('ok', [dict((k, d.get(k)) for k in _HKEYS) for d in got[1]])
